@@ -62,7 +62,7 @@ register('C01', 'p_tree', 'c01',
          'delete/garbage, dangling/looping link, directory and file symlinks, directory on another device); ops: verify of every sub-path with '
          'every handler policy and last_mtime in {none, older, equal, newer}, find_path_entry, verify_path, assert_path_verifies, find_dist_entry; '
          'pinned scandir orders; non-trivial = distinct (files, manifests, mutations, ops)',
-         'Theorems in Properties/C01.v (per-entry soundness, stray rule, IGNORE, aggregation, component-wise IGNORE matching); the whole-tree '
+         'Theorems in Properties/C01.v (per-entry soundness, stray rule, IGNORE, aggregation, component-wise IGNORE matching, one directory is its items, every entry and every found file of the whole tree is checked); the whole-tree '
          'behaviour is tied to /repo by running both on the same abstract tree realised on two devices.',
          ORACLE + ['kernel: the scratch tree behaves like the inode-graph model (stat/open/fstat/scandir/read); /dev/shm is a second device'])
 register('C02', 'p_tree', 'c02',
@@ -82,7 +82,7 @@ register('C07', 'p_tree', 'c07',
          TREE_RULE + '2-6 simultaneous mutations; keep-going policies {always False, always True, always None, by path parity}; every sub-path; '
          'the complete handler call log (paths and difference names, in order) is compared; plus gemato verify --keep-going exit status; '
          'non-trivial = distinct case',
-         'Theorems in Properties/C07.v (result = conjunction of all handler verdicts of the whole scan).',
+         'Theorems in Properties/C07.v (result = conjunction of all handler verdicts of the whole scan; every report justified; every failing entry / found file reported).',
          ORACLE)
 
 register('C16', 'p_tree', 'c16',
@@ -226,7 +226,7 @@ META = {
    level_text='Proved in Coq for all inputs: a file entry verifies only if the object is a regular file of matching size whose content has every listed checksum '
               '(or is not newer than last_mtime with unchanged size); a stray object is a mismatch; IGNORE verifies; IGNORE matching is component-wise; the '
               'directory verdict is the conjunction of all per-path verdicts; for one directory exactly which objects are presented (C01_directory_is_its_items, C01_items_exactly: every visible listed file once, with its entry or none; '
-              'sub-directories with entries; every entry not met as a missing file); two entries for one path are compatible iff tags agree, sizes are equal and every hash carried by both has one value - a conflicting common hash is never forgiven (C01_duplicates_compatible_iff, C01_conflict_not_forgiven). PARTIAL: the composition over the tree (recursion, IGNORE pruning, per-directory dictionaries) is covered by the correspondence of whole-tree runs only.',
+              'sub-directories with entries; every entry not met as a missing file); two entries for one path are compatible iff tags agree, sizes are equal and every hash carried by both has one value - a conflicting common hash is never forgiven (C01_duplicates_compatible_iff, C01_conflict_not_forgiven). The composition over the whole tree (Proofs/WalkComplete.v): every entry of the merged entry dictionary - visited directory or not, below an IGNOREd directory or not - is checked by verify_path against the object at its path, and every visible file of every directory reached from the start through sub-directories that are not hidden and have no entry is checked with an entry recorded for its path or as a stray file; a failing check is raised or handed to the handler, so a verification that reports nothing means all of them matched (C01_every_entry_is_checked, C01_every_found_file_is_checked, C01_silent_verification_means_match, C01_default_handler_success). PARTIAL: that the merged dictionary holds exactly the entries of the loaded Manifests below the directory (get_file_entry_dict) is covered by the correspondence of whole-tree runs only.',
    level_note='About Model/{FS,Verify,Loader}.v; filesystem, hashlib and codecs are oracles; the model is the reference for verdict disagreements.'),
  'C02': dict(engine='coq+tree', design_ref='DESIGN.md section 5 C02',
    technique='Coq invariant proof over Manifest loading rounds + differential tamper matrix on realised trees',
@@ -247,6 +247,7 @@ META = {
    level_text='Proved in Coq for trees of any size: the result of keep-going verification is False iff some handler invocation of the whole scan (including the trailing '
               'missing-directory pass) returned False; no invocation is dropped or short-circuited; within one directory the handler is invoked exactly for the items that do not verify, once each, in order '
               '(C07_directory_log); over the whole tree every invocation is justified by a failed check of that very path with exactly the differences handed over (C07_only_offending_reported: "for no other path"). '
+              'Conversely every entry of the merged entry dictionary and every file found by the walk whose check fails is handed to the handler, whichever directory it belongs to (C07_every_offending_path_reported, Proofs/WalkComplete.v). '
               'PARTIAL: that two different directory visits never report one path (distinctness of joined paths) is compared on generated trees (complete ordered call log, model vs /repo).',
    level_note='About Model/Loader.v walk_verify/verify_dir; the lazy-all() defect D1 was repaired in /repo (fix commit) and the model has no laziness.'),
  'C16': dict(engine='coq+tree', design_ref='DESIGN.md section 5 C16',
